@@ -187,6 +187,20 @@ func history(c *harness.Ctx, id string, r *rand.Rand) {
 	env.Opts.Aggregator = nil
 	lateAgg := &lateAggregator{get: func() *aggWrap { return aw }}
 	env.Opts.Aggregator = lateAgg
+	if r0.Intn(4) == 0 {
+		// place the wall clock late in the first duty slot after the start (after the aggregation delay, before the slot's
+		// end): an attestation that completes late in its slot still gets its aggregation jobs
+		first := uint64(0)
+		for _, d := range script[epoch] {
+			if d.Slot > start && (first == 0 || d.Slot < first) {
+				first = d.Slot
+			}
+		}
+		if first > 0 {
+			env.Clock.Genesis = time.Now().Add(-(time.Duration(first)*ctlsim.SlotDuration + 9*time.Second))
+			c.Count("histories_with_wall_clock_late_in_a_duty_slot", 1)
+		}
+	}
 	if err := env.Start(); err != nil {
 		c.Inconclusive("controller.New: " + err.Error())
 		return
